@@ -375,7 +375,7 @@ RFS = {"rfs": ("Dict[str, Un[Blob]]", "any")}
 ATR = "clematis/io/atomic.py:atomic_replace"
 AR = R.contract(
     ATR, "C16", verify=False, callee=False, name="atomic_replace(assumed)",
-    types={"tmp_path": "str", "final_path": "str", "retries": "int", "backoff_ms": "int"},
+    types={"tmp_path": "str", "final_path": "str", "retries": "int", "backoff_ms": "int", "cleanup": "bool"},
     requires=[("src-is-not-dst", "tmp_path != final_path")],
     modifies=["rfs"],
     ensures=[("moved", "old(tmp_path in rfs) and moved_file(rfs, final_path, old(rfs), tmp_path) and not (tmp_path in rfs) "
@@ -384,7 +384,8 @@ AR = R.contract(
     # distinguish FileNotFoundError)
     raises={"FileNotFoundError": "not (tmp_path in rfs)", "PermissionError": None},
     ensures_exc=[("failed", "forall((p, 'str'), p != tmp_path, same_file(rfs, old(rfs), p)) and "
-                            "(same_file(rfs, old(rfs), tmp_path) or not (tmp_path in rfs))")],
+                            # repaired atomic_replace: the source is unlinked on failure only when cleanup is requested
+                            "(same_file(rfs, old(rfs), tmp_path) or (cleanup and not (tmp_path in rfs)))")],
 )
 # generation names: gname(path, k) is *defined* as f"{path}.{k}" (instances added by the ghost call lemma_gname at the
 # points where the code builds such a name); gidx is its left inverse in k -- justified by lemma 'gen_names' below
@@ -465,8 +466,8 @@ R.contract(
 
 # interruption by a failing OS call, for N = 1 and N = 2 kept generations (loop runs concretely, no invariants):
 # every generation but the oldest must still be there, under its old name or under the next one.
-# FINDING (expected to FAIL): atomic_replace "cleans up the temp file on failure" -- here the "temp" is the live log /
-# a kept generation, so a failing os.replace deletes it.
+# (Before the repair in /repo -- fix: "log rotation deleted the live log ..." -- these clauses failed: atomic_replace
+# "cleans up the temp file on failure", and here the "temp" is the live log / a kept generation.)
 ROT = R.contracts.get("clematis/scripts/rotate_logs.py:rotate_one")
 for _n in (1, 2):
     R.contract(
@@ -480,5 +481,5 @@ for _n in (1, 2):
                  "dst": ["define:" + G % "(k + 1)" + " := path + '.' + str(k + 1)"]},
         raises=["OSError"],
         ensures_exc=ROT_EXC,
-        unreachable_ok=["pass", "print(", "if dry_run:"] + (["for k in range", "src = ", "dst = ", "if os.path.exists(src)"] if _n == 1 else []),
+        unreachable_ok=["pass", "print(", "if dry_run:", "return False"] + (["for k in range", "src = ", "dst = ", "if os.path.exists(src)"] if _n == 1 else []),
     )
